@@ -100,6 +100,7 @@ pub struct Profile {
     pub long_lists: u8,
     /// internal links inside table cells (C05 leaves cells undecided)
     pub cell_internal_links: bool,
+    pub piped_wiki: bool,
 }
 
 impl Profile {
@@ -123,11 +124,16 @@ impl Profile {
             links_in_headings: false,
             long_lists: 1,
             cell_internal_links: true,
+            piped_wiki: true,
         }
     }
     pub fn has(&self, c: &str) -> bool {
         self.hostile.contains(c)
     }
+}
+
+fn is_ref_para(b: &Blk) -> bool {
+    matches!(b, Blk::Para(v) if v.len() == 1 && matches!(&v[0], Inl::Link { dest, .. } if crate::mdscan::is_internal(dest)))
 }
 
 pub struct Words {
@@ -205,7 +211,8 @@ impl<'a> Gen<'a> {
             0..=3 => LStyle::Inline,
             4 => LStyle::RefDef,
             5 => LStyle::Wiki,
-            _ => LStyle::WikiPiped,
+            _ if self.p.piped_wiki => LStyle::WikiPiped,
+            _ => LStyle::Inline,
         };
         let title = if style == LStyle::Inline && self.rng.chance(1, 8) {
             Some(match self.word() {
@@ -356,7 +363,8 @@ impl<'a> Gen<'a> {
         let style = match self.rng.below(6) {
             0..=3 => LStyle::Inline,
             4 => LStyle::Wiki,
-            _ => LStyle::WikiPiped,
+            _ if self.p.piped_wiki => LStyle::WikiPiped,
+            _ => LStyle::Inline,
         };
         let text = self.plain_words(1, 2);
         Some(Blk::Para(vec![Inl::Link {
@@ -496,8 +504,9 @@ impl<'a> Gen<'a> {
                         0..=3 if !prev_is_list => self.list(depth + 1),
                         4..=5 => self.para(),
                         6 if self.p.code => self.code(false),
-                        7 if self.p.quotes && !matches!(item.last(), Some(Blk::Quote(_))) => self.quote(depth + 1),
-                        8 if self.p.block_refs => match self.block_ref() {
+                        7 if self.p.quotes && !matches!(item.last(), Some(Blk::Quote(_))) && !item.last().map(is_ref_para).unwrap_or(false) => self.quote(depth + 1),
+                        // a block reference next to a quote would, once inlined as a quote, sit next to it
+                        8 if self.p.block_refs && !matches!(item.last(), Some(Blk::Quote(_))) => match self.block_ref() {
                             Some(b) => b,
                             None => self.para(),
                         },
